@@ -394,3 +394,38 @@ pub proof fn lemma_range_text_push(s: Seq<BoundSet>, b: BoundSet)
         assert(range_text_r(q) =~= range_text_r(s) + "||"@ + bs_text(b));
     }
 }
+// satisfaction (bounds AND the prerelease gate) for the two-comparator alternative
+pub open spec fn tag_on(v: Version, x: VKey) -> bool { v.pre_release@.len() > 0 && same_tuple(key(v), x) }
+pub proof fn lemma_alt_two_sat<'s>(op1: Operation, v: Version, op2: Operation, w: Version, tail: Seq<char>, i: &'s str, o: Vec<BoundSet>, rest: &'s str)
+    requires op1 != Operation::Exact, op2 != Operation::Exact, wf_version(v), wf_version(w), ends_alternative(tail),
+        i@ == two_text(op1, v, op2, w, tail), range_acc(i, o, rest),
+    ensures
+        forall|x: VKey| #![trigger any_sat(o@, o@.len() as int, x)] any_sat(o@, o@.len() as int, x) <==>
+            (op_admits(op1, key(v), x) && op_admits(op2, key(w), x) && (x.pre.len() == 0 || tag_on(v, x) || tag_on(w, x))),
+{
+    reveal_strlit(">="); reveal_strlit(">"); reveal_strlit("<="); reveal_strlit("<");
+    let e: Seq<char> = i@;
+    assert(e[0] == '>' || e[0] == '<');
+    lemma_span_unique(e, |c: char| ws_char(c), 0);
+    assert(skip_ws(e) =~= e);
+    assert(!empty_alt(e));
+    let outs = choose|outs: Seq<Option<BoundSet>>| #[trigger] sep_all::<&'s str, Option<BoundSet>, &'s str, SemverParseError<&'s str>, _, _>(simple, space1::<SemverParseError<&'s str>>, i, outs, rest) && all_elem_ok(outs) && conj_post(outs, o@);
+    lemma_alt_two_structure(op1, v, op2, w, tail, i, outs, rest);
+    lemma_cmp_within(op1, v, outs[0]); lemma_cmp_within(op2, w, outs[1]);
+    lemma_cmp_gate(op1, v, outs[0]); lemma_cmp_gate(op2, w, outs[1]);
+    let b1 = outs[0]->Some_0; let b2 = outs[1]->Some_0;
+    assert forall|x: VKey| #![trigger any_sat(o@, o@.len() as int, x)] any_sat(o@, o@.len() as int, x) <==>
+            (op_admits(op1, key(v), x) && op_admits(op2, key(w), x) && (x.pre.len() == 0 || tag_on(v, x) || tag_on(w, x))) by {
+        assert(all_within(outs, 2, x) <==> (within(b1, x) && within(b2, x))) by {
+            if within(b1, x) && within(b2, x) { assert forall|j: int| 0 <= j < 2 && j < outs.len() implies ((#[trigger] outs[j]) matches Some(b) ==> within(b, x)) by { if j == 0 { } else { assert(j == 1); } } }
+            if all_within(outs, 2, x) { assert(outs[0] matches Some(b) ==> within(b, x)); assert(outs[1] matches Some(b) ==> within(b, x)); }
+        }
+        assert(some_gate(outs, 2, x) <==> (gate(b1, x) || gate(b2, x))) by {
+            if gate(b1, x) { assert(outs[0] matches Some(b) && gate(b, x)); }
+            if gate(b2, x) { assert(outs[1] matches Some(b) && gate(b, x)); }
+            if some_gate(outs, 2, x) { let j = choose|j: int| 0 <= j < 2 && j < outs.len() && ((#[trigger] outs[j]) matches Some(b) && gate(b, x)); if j == 0 { } else { assert(j == 1); } }
+        }
+        assert(has_some(outs, 2)) by { assert(outs[0] is Some); }
+        if o@.len() == 1 { assert(any_sat(o@, 1, x) <==> sat(o@[0], x)); }
+    }
+}
